@@ -163,7 +163,11 @@ def emit_nodes(nodes, out):
             emit_nodes(n[2], out)
             out.append("\n% endif\n")
         elif k == "FOR":
-            out.append("\n%% for %s in 'abc'[:%d]:\n" % (n[1], n[2]))
+            if len(n) > 4 and n[4]:
+                # the iterable expression itself may raise (raiser() returns a true value when disarmed)
+                out.append("\n%% for %s in (raiser() and 'abc')[:%d]:\n" % (n[1], n[2]))
+            else:
+                out.append("\n%% for %s in 'abc'[:%d]:\n" % (n[1], n[2]))
             emit_nodes(n[3], out)
             out.append("\n% endfor\n")
         elif k == "TRY":
@@ -440,6 +444,9 @@ class Model:
                     self.write("\n")
             elif k == "FOR":
                 self.write("\n")
+                if len(n) > 4 and n[4] and self.context.get("armed"):
+                    self.events.add("raised")
+                    raise self.context["boom"]
                 for idx, i in enumerate("abc"[: n[2]]):
                     sc = {"vars": scope["vars"] + [{n[1]: i}], "defs": scope["defs"], "caller": scope["caller"], "loops": scope["loops"] + [idx]}
                     self.run(n[3], sc)
